@@ -162,7 +162,10 @@ impl Out {
     }
     /// A direct property failure observed on the implementation (input in hand). `json` is a JSON object body.
     pub fn violation(&mut self, json: String) {
-        if self.violations.len() < 20 {
+        // keep at most 5 per class (so that a listed known finding cannot crowd out a different violation)
+        let class = json.split("\"class\": \"").nth(1).and_then(|r| r.split('"').next()).unwrap_or("").to_string();
+        let n = self.violations.iter().filter(|v| v.contains(&format!("\"class\": \"{}\"", class))).count();
+        if n < 5 && self.violations.len() < 200 {
             self.violations.push(json);
         }
     }
